@@ -486,8 +486,15 @@ class C06(core.Prop):
         return out
 
     def _history(self, rng):
-        stmts = []
-        while len(stmts) < 2:
+        # two statements of one shape differing in a constant only, plus a random one
+        t = rng.choice(['A', 'B'])
+        src = ['table', t] if rng.random() < 0.6 else ['join', 'inner', A, B, ['bin', '==', ['col', 'A', 'x'], ['col', 'B', 'x']]]
+        sel = [['col', t, 'id'], ['alias', ['bin', '+', ['col', t, 'x'], ['lit', 1]], 'calc']]
+        k1, k2 = rng.sample([0, 1, 2, 3], 2)
+        shaped = lambda k: ['query', copy.deepcopy(src), {'sel': copy.deepcopy(sel), 'pre': ['bin', '>=', ['col', t, 'id'], ['lit', k]], 'grp': [], 'post': None,
+                                                          'ord': [], 'rows': None}]
+        stmts = [shaped(k1), shaped(k2)]
+        while len(stmts) < 3:
             stmt, tables, _ = self._query(rng)
             if stmt[0] == 'query' and not stmt[2].get('rows') and set(tables) <= {'A', 'B'}:
                 stmts.append(stmt)
